@@ -920,7 +920,11 @@ func (si *SignerInfo) VerifyWithConfig(config *CMSConfig, sd *SignedData, truste
 	// extract signing-time as the reference time for certificate validity checks
 	// (only if not already set externally via config)
 	if config.ReferenceTime == nil {
-		config.ReferenceTime = si.resolveSigningTime()
+		// each SignerInfo is judged at its OWN signing time: resolve it into a private copy of the config,
+		// which the caller shares between all SignerInfos (and may reuse for another SignedData)
+		siConfig := *config
+		siConfig.ReferenceTime = si.resolveSigningTime()
+		config = &siConfig
 	}
 
 	var digest []byte
